@@ -1,4 +1,5 @@
 import Ktm.SpaceDisc
+import Ktm.SpaceComplete
 /-! # C13 — define-by-run lookup, conditional scopes and space discovery work as documented
 
 Model: `Space.S` (the `HyperParameters` container: space in insertion order, values, name-scope and
@@ -62,12 +63,28 @@ theorem new_entries_added (o : S) (hps : List HP) :
     ∃ o', updateSpace true true o hps = .ok o' ∧ o'.hps = o.hps ++ hps.filter (fun h => !(o.exists_ h.name h.conds)) :=
   updateSpace_adds o hps
 
-/-- partial — "the tuner discovers every declaration under any nested conditional scope before the first
-trial": the discovery loop is modelled (`Space.populateInitial`, with the unseeded values that
-`ensure_active_values` invents as inputs) and compared with the real `BaseTuner` construction on every
-generated program, and a monitor checks completeness and parents-first on the implementation; a theorem
-"every declaration is found" is not proved (it needs a fixpoint argument over the scopes visited). What is
-proved about the loop is that whatever it builds is merged parents-first: -/
+/-- **the tuner discovers every hyperparameter declared under any nested conditional scope the build function opens**:
+one build — whatever values the container holds, because the body of a `with hp.conditional_scope(...)` block always
+runs — registers every declaration the build function makes outside Python-`if` guards (`Space.eagerDecls`: name
+scopes and conditional scopes followed to any depth), under its qualified name and its full condition stack … -/
+theorem build_registers_every_declaration (fuel : Nat) (s : S) (prog : List Stmt) (last : Option Val) (g : Good s)
+    (hok : runOk fuel s prog last = true) :
+    ∀ d ∈ eagerDecls fuel s.nameScopes s.conds prog, (run fuel s prog last).1.exists_ d.1 d.2 = true :=
+  run_registers_eager fuel s prog last g hok
+
+/-- … and after `_populate_initial_space` (new entries allowed and tuned) each of them is an entry of the ORACLE's search
+space: the first build's registrations are merged, and however many further builds the activation loop performs, it
+only ever adds entries (parents before children: `build_keeps_parents_first`) -/
+theorem discovery_finds_every_declaration (prog : List Stmt) (o : S) (go : Good (copyOf o)) (fills : List Val) (fuel : Nat)
+    (hok : runOk 10000 (copyOf o) prog none = true) :
+    ∀ d ∈ eagerDecls 10000 [] [] prog, (populateInitial true true prog o fills (fuel + 1)).o.exists_ d.1 d.2 = true :=
+  discovery_registers_eager prog o go fills fuel hok
+
+/-- partial — declarations that user code guards with a Python `if` on the parent's value (the model's *lazy* scopes)
+are found only once the activation loop has made their scope active; the loop is modelled (`Space.populateInitial`) and
+compared with the real `BaseTuner` construction on every generated program, and a monitor checks completeness on the
+implementation; the fixpoint argument "every lazily guarded declaration is eventually executed" is not proved. What is
+proved about everything the loop builds is that it is merged parents-first: -/
 theorem discovery_partial (fuel : Nat) (hp : S) (prog : List Stmt) (g : Good hp) : PF (run fuel hp prog none).1.hps :=
   (run_good fuel hp prog none g).1.pf
 
